@@ -44,7 +44,7 @@ def drop_verif(body):
 
 
 PATTERNS = [
-    ('pipe2', r'\bpipe2\s*\('),
+    ('pipe2', r'\bpipe2\s*\(\s*proc_pipe\s*,\s*([\w| ]+?)\s*\)'),
     ('fork', r'\bfork\s*\(\s*\)'),
     ('pid==0', r'\bif\s*\(\s*pid\s*==\s*0\s*\)'),
     ('setsid', r'\bsetsid\s*\(\s*\)'),
@@ -60,7 +60,13 @@ PATTERNS = [
     ('waiteof', r'\bwaiteof\s*\(\s*proc_pipe\[0\]\s*,\s*(\d+)\s*\)'),
     ('step_timeout', r'\bstep_timeout\s*\(\s*c\s*\)'),
     ('if-timeout', r'\bif\s*\(\s*timeout\s*(>|>=|!=)\s*0\s*\)'),
-    ('alarm', r'\balarm\s*\('),
+    ('alarm', r'\balarm\s*\(\s*([^;]+?)\s*\)\s*;'),
+    ('setitimer', r'\bsetitimer\s*\('),
+    ('signal', r'\bsignal\s*\(\s*(\w+)\s*,\s*(\w+)\s*\)'),
+    ('sigsuspend', r'\bsigsuspend\s*\('),
+    ('_exit', r'\b_exit\s*\(\s*([^;]+?)\s*\)\s*;'),
+    ('exit', r'(?<![\w_])exit\s*\(\s*([^;]+?)\s*\)\s*;'),
+    ('warnx', r'\bwarnx\s*\(\s*"([^"]*)"'),
     ('step_fork', r'\bstep_fork\s*\('),
     ('waitpid', r'\bwaitpid\s*\(\s*([-\w]+)\s*,\s*(&?\w+)\s*,\s*(\w+)\s*\)(\s*==\s*-1)?'),
     ('if-gotsig', r'\bif\s*\(\s*gotsig\s*\)'),
@@ -109,6 +115,187 @@ def calls_of(body):
     return [t for _, t in found]
 
 
+# ---- the pc-level transition table ------------------------------------------------------------------
+#
+# The statements matched above, function by function and in order, are read as the control flow of the runner
+# between the sync points.  Whatever a statement says that the model depends on becomes a field of an edge:
+# the target of kill() (with or without the minus sign), the signals of the two rounds in their order, the
+# constants stored and returned, the argument of exitstatus(), the direction of the tests, which return value
+# of waiteof / killwaitpg1 means failure.  Anything the table language cannot express (another wait flag, a
+# changed loop, an extra statement, a handler installed elsewhere) raises.
+
+SIGNUM = {'SIGTERM': 15, 'SIGKILL': 9, 'SIGALRM': 14, 'SIGINT': 2, 'SIGHUP': 1, 'SIGQUIT': 3}
+
+
+class Seq:
+    def __init__(self, fn, items):
+        self.fn, self.items, self.i = fn, items, 0
+
+    def take(self, prefix, n=None):
+        """consume the next statement, which must start with <prefix>; return its remaining words"""
+        if self.i >= len(self.items) or not (self.items[self.i] == prefix or self.items[self.i].startswith(prefix + ' ')):
+            got = self.items[self.i] if self.i < len(self.items) else '<end>'
+            raise ValueError('step-exec.c %s: expected a statement "%s ...", found "%s": the control flow is no longer the one '
+                             'the transition table can express' % (self.fn, prefix, got))
+        rest = self.items[self.i][len(prefix):].strip()
+        self.i += 1
+        words = rest.split(' ') if rest else []
+        if n is not None and len(words) != n:
+            raise ValueError('step-exec.c %s: "%s" has %d operands, expected %d' % (self.fn, prefix, len(words), n))
+        return words
+
+    def exact(self, text):
+        if self.i >= len(self.items) or self.items[self.i] != text:
+            got = self.items[self.i] if self.i < len(self.items) else '<end>'
+            raise ValueError('step-exec.c %s: expected "%s", found "%s"' % (self.fn, text, got))
+        self.i += 1
+
+    def end(self):
+        if self.i != len(self.items):
+            raise ValueError('step-exec.c %s: unexpected statement "%s"' % (self.fn, self.items[self.i]))
+
+
+def num(fn, w):
+    if not re.fullmatch(r'-?\d+', w):
+        raise ValueError('step-exec.c %s: "%s" is not an integer constant' % (fn, w))
+    return int(w)
+
+
+def build_table(calls):
+    E = []          # (from, guard, effect, target, comment)
+
+    def edge(frm, guard, eff, to, why):
+        E.append((frm, guard, eff, to, why))
+    # -- waiteof: which return value means "gave up", which "the pipe reported EOF"
+    q = Seq('waiteof', calls['waiteof'])
+    q.take('slpms', 1)
+    q.exact('read'); q.exact('n== -1'); q.exact('errno== EAGAIN'); q.exact('usleep'); q.exact('countdown')
+    q.exact('if-timoms <=')
+    r_giveup = num('waiteof', q.take('return', 1)[0])
+    q.exact('warn read'); q.take('return', 1)
+    q.exact('n== 0'); q.exact('break')
+    r_eof = num('waiteof', q.take('return', 1)[0])
+    q.end()
+    # -- step_fork, the parent's part
+    q = Seq('step_fork', calls['step_fork'])
+    q.take('pipe2'); q.exact('err 1 pipe2'); q.exact('fork'); q.exact('err 1 fork'); q.exact('pid==0')
+    q.exact('close-pipe 0'); q.exact('setsid'); q.exact('err 1 setsid')
+    for sg in ('SIGHUP', 'SIGINT', 'SIGQUIT'):
+        q.exact('siginstall %s SIG_DFL 0' % sg)
+    q.exact('close-pipe 1'); q.exact('execvp')
+    unhandled = ['LForked']
+    q.exact('siginstall SIGPIPE SIG_IGN 0')
+    edge('LForked', 'GTrue', 'ENone', 'TLoc LIgnPipe', 'siginstall(SIGPIPE, SIG_IGN, 0)')
+    unhandled.append('LIgnPipe')
+    h = q.take('siginstall SIGTERM', 2)
+    if h != ['sighandler', 'SIG_NO_RESTART']:
+        raise ValueError('step-exec.c step_fork: SIGTERM is installed with %r, the model needs sighandler without SA_RESTART' % h)
+    edge('LIgnPipe', 'GTrue', 'ENone', 'TLoc LTermInst', 'siginstall(SIGTERM, sighandler, SIG_NO_RESTART)')
+    q.exact('close-pipe 1')
+    q.take('waiteof', 1)
+    edge('LTermInst', 'GTrue', 'ENone', 'TEnter LHandshake WHandshake', 'close(proc_pipe[1]); waiteof(proc_pipe[0], ...)')
+    # if (waiteof(...)) { failure path }: a non-zero return value is the failure
+    ok_eof, ok_giveup = (r_eof == 0), (r_giveup == 0)
+    edge('LHandshake', 'GAnd (GCount true) (GPipeEof true)', 'ENone' if ok_eof else 'EGaveUp',
+         'TLoc LGroupUp' if ok_eof else 'TLoc LGroupFail', 'read() == 0: break; return %d' % r_eof)
+    edge('LHandshake', 'GAnd (GCount true) (GPipeEof false)', 'ENone', 'TAgain', 'EAGAIN: usleep; timoms -= slpms')
+    edge('LHandshake', 'GCount false', 'ENone' if ok_giveup else 'EGaveUp',
+         'TLoc LGroupUp' if ok_giveup else 'TLoc LGroupFail', 'timoms <= 0: return %d' % r_giveup)
+    q.take('warnx')                # what the runner SAYS here is free text ("process group failure")
+    w = q.take('waitpid', 5)
+    if w[:3] != ['pid', '&status', '0'] or w[3:] != ['==', '-1']:
+        raise ValueError('step-exec.c step_fork: the wait on the failure path is waitpid(%s), not waitpid(pid, &status, 0) == -1' % ' '.join(w))
+    edge('LGroupFail', 'GTrue', 'ENone', 'TLoc LFailWaiting', 'warnx("process group failure"); waitpid(pid, &status, 0) blocks')
+    edge('LFailWaiting', 'GZombie true', 'EReap', 'TLoc LFailDone', 'waitpid(pid, &status, 0) returned pid')
+    c = num('step_fork', q.take('return', 1)[0])
+    edge('LFailIntr', 'GTrue', 'ENone', 'TReturn %d' % c, 'waitpid(...) == -1: return %d' % c)
+    a = q.take('exitstatus', 1)[0]
+    if a not in ('0', 'gotsig'):
+        raise ValueError('step-exec.c step_fork: exitstatus(status, %s)' % a)
+    q.exact('return error ? error : 1')
+    edge('LFailDone', 'GTrue', 'ENone', 'TReturnLate %s' % ('true' if a == 'gotsig' else 'false'),
+         'error = exitstatus(status, %s); return error ? error : 1' % a)
+    q.exact('close-pipe 0'); q.exact('step_timeout')
+    op = q.take('if-timeout', 1)[0]
+    if op != '>':
+        raise ValueError('step-exec.c step_fork: if (timeout %s 0)' % op)
+    edge('LGroupUp', 'GTimeout true', 'ENone', 'TLoc LAlrmInst', 'timeout > 0: siginstall(SIGALRM, sighandler, 0)')
+    edge('LGroupUp', 'GTimeout false', 'ENone', 'TLoc LBeforeWait', 'timeout <= 0: return 0')
+    h = q.take('siginstall SIGALRM', 2)
+    if h[0] != 'sighandler':
+        raise ValueError('step-exec.c step_fork: SIGALRM handler is %s' % h[0])
+    al = q.take('alarm')
+    if ' '.join(al) not in ('(unsigned int)timeout', 'timeout'):
+        raise ValueError('step-exec.c step_fork: alarm(%s) - the model arms the alarm with the configured timeout itself' % ' '.join(al))
+    edge('LAlrmInst', 'GTrue', 'EArm', 'TLoc LBeforeWait', 'alarm((unsigned int)timeout); return 0')
+    q.exact('return 0'); q.end()
+    # -- step_exec
+    q = Seq('step_exec', calls['step_exec'])
+    q.take('warnx'); q.take('return', 1)
+    if q.i < len(q.items) and q.items[q.i] == 'warnx %s: empty step command':
+        q.take('warnx'); q.take('return', 1)        # /repo 8e76449: refused before anything is forked (C06's subject)
+    q.exact('step_fork'); q.exact('return _')
+    w = q.take('waitpid', 5)
+    if w != ['-pid', '&status', '0', '==', '-1']:
+        raise ValueError('step-exec.c step_exec: waits with waitpid(%s), not waitpid(-pid, &status, 0) == -1' % ' '.join(w))
+    edge('LBeforeWait', 'GTrue', 'ENone', 'TLoc LWaiting', 'waitpid(-pid, &status, 0) blocks')
+    edge('LWaiting', 'GZombie true', 'EReap', 'TLoc LWaitDone', 'waitpid(-pid, &status, 0) returned')
+    q.exact('if-gotsig'); q.take('warnx')
+    kw = q.take('killwaitpg', 2)
+    if kw[0] != 'pid':
+        raise ValueError('step-exec.c step_exec: killwaitpg(%s, ...)' % kw[0])
+    q.take('warnx')
+    er = q.take('err', 2)
+    edge('LWaitIntr', 'GGotsig false', 'ENone', 'TReturn %d' % num('step_exec', er[0]), 'gotsig == 0: err(%s, "waitpid")' % er[0])
+    # -- killwaitpg / killwaitpg1
+    k = Seq('killwaitpg', calls['killwaitpg'])
+    k.take('warnx'); s1 = k.take('killwaitpg1', 1)[0]; r1 = num('killwaitpg', k.take('return', 1)[0])
+    k.take('warnx'); s2 = k.take('killwaitpg1', 1)[0]; r2 = num('killwaitpg', k.take('return', 1)[0])
+    st = num('killwaitpg', k.take('status=', 1)[0]); k.take('return', 1); k.end()
+    if s1 not in SIGNUM or s2 not in SIGNUM:
+        raise ValueError('step-exec.c killwaitpg: signals %s, %s' % (s1, s2))
+    if r1 != 0 or r2 != 0:
+        raise ValueError('step-exec.c killwaitpg: a reaped main process no longer returns 0')
+    k1 = Seq('killwaitpg1', calls['killwaitpg1'])
+    k1.take('slpms', 1)
+    kl = k1.take('kill', 4)
+    if kl[0] not in ('-pgid', 'pgid') or kl[1] != 'signo' or kl[2:] != ['==', '-1']:
+        raise ValueError('step-exec.c killwaitpg1: kill(%s)' % ' '.join(kl))
+    group = 'true' if kl[0] == '-pgid' else 'false'
+    k1.exact('err 1 kill')
+    w = k1.take('waitpid', 3)
+    if w[0] not in ('-pgid', 'pgid') or w[1:] != ['status', 'WNOHANG']:
+        raise ValueError('step-exec.c killwaitpg1: polls with waitpid(%s)' % ' '.join(w))
+    k1.exact('w== -1'); k1.exact('warn waitpid'); k1.take('return', 1)
+    k1.exact('w== 0'); k1.exact('usleep'); k1.exact('countdown'); k1.exact('if-timoms <=')
+    rt = num('killwaitpg1', k1.take('return', 1)[0]); k1.exact('continue')
+    rr = num('killwaitpg1', k1.take('return', 1)[0]); k1.end()
+    if rt == 0 or rr != 0:
+        raise ValueError('step-exec.c killwaitpg1: the return values of "timed out" / "reaped" changed (%d / %d)' % (rt, rr))
+    edge('LWaitIntr', 'GGotsig true', 'ENone', 'TLoc (LKillSend PhTerm)', 'gotsig: killwaitpg(pid, ...): first round')
+    for ph, sg in (('PhTerm', s1), ('PhKill', s2)):
+        edge('LKillSend %s' % ph, 'GTrue', 'EKill %s %d' % (group, SIGNUM[sg]), 'TEnter (LPoll %s) WPoll' % ph,
+             'kill(%s, %s)' % (kl[0], sg))
+        edge('LPoll %s' % ph, 'GAnd (GCount true) (GZombie true)', 'EReap', 'TLoc LWaitDone', 'waitpid(..., WNOHANG) > 0: return 0')
+        edge('LPoll %s' % ph, 'GAnd (GCount true) (GZombie false)', 'ENone', 'TAgain', 'w == 0: usleep; timoms -= slpms; continue')
+    edge('LPoll PhTerm', 'GCount false', 'ENone', 'TLoc (LKillSend PhKill)', 'timoms <= 0: return %d; second round' % rt)
+    edge('LPoll PhKill', 'GCount false', 'EStatus %d' % st, 'TLoc LWaitDone', 'timoms <= 0: *status = %d; "failed to kill process group"' % st)
+    a = q.take('exitstatus', 1)[0]
+    if a not in ('0', 'gotsig'):
+        raise ValueError('step-exec.c step_exec: exitstatus(status, %s)' % a)
+    q.take('warnx'); q.exact('return _'); q.end()
+    edge('LWaitDone', 'GTrue', 'ENone', 'TReturnStatus %s' % ('true' if a == 'gotsig' else 'false'), 'return exitstatus(status, %s)' % a)
+    out = ['(* GENERATED by harness/t_kill.py from step-exec.c - do not edit.',
+           '   The control flow of the step runner between the sync points, edge by edge (language: Exec/KillTable.v). *)',
+           'From Coq Require Import ZArith List.', 'From Robsd Require Import Exec.KillTable.', 'Import ListNotations.',
+           'Local Open Scope Z_scope.', '',
+           'Definition table : list edge :=', '  [ ' +
+           ';\n    '.join('(* %s *)\n    mkedge (%s) (%s) (%s) (%s)' % (why.replace('*)', '* )'), f, g, e, t) for f, g, e, t, why in E) + ' ].', '',
+           '(* locations the runner passes before siginstall(SIGTERM, sighandler, ...): SIGTERM still has its default action *)',
+           'Definition sigterm_unhandled : list loc := [%s].' % '; '.join(unhandled), '']
+    return '\n'.join(out)
+
+
 def coq_string(s):
     return '"' + s.replace('"', '""') + '"'
 
@@ -139,6 +326,12 @@ def generate(repo):
         calls[f] = calls_of(drop_verif(body))
         if not calls[f]:
             raise ValueError('no recognisable statement in %s' % f)
+    # the signal handler is pinned as a whole: one assignment, nothing else (a handler that exits, longjmps or kills
+    # changes the transition system at EVERY program counter)
+    _, hb = function_body(src, 'sighandler')
+    if re.sub(r'\s+', ' ', drop_verif(hb)).strip() != 'gotsig = signo;':
+        raise ValueError('step-exec.c sighandler: body is no longer the single statement `gotsig = signo;`: %r'
+                         % re.sub(r'\s+', ' ', hb).strip())
     kw = [c for c in calls['step_exec'] if c.startswith('killwaitpg ')]
     if len(kw) != 1:
         raise ValueError('step_exec: expected exactly one killwaitpg call')
@@ -160,9 +353,10 @@ def generate(repo):
         out.append('Definition calls_%s : list string :=' % f)
         out.append('  [ ' + ';\n    '.join(coq_string(c) for c in calls[f]) + ' ].')
         out.append('')
-    return {'Gen_Kill.v': '\n'.join(out)}
+    return {'Gen_Kill.v': '\n'.join(out), 'Gen_KillTable.v': build_table(calls)}
 
 
 if __name__ == '__main__':
     import sys
-    print(generate(sys.argv[1] if len(sys.argv) > 1 else '/repo')['Gen_Kill.v'])
+    g = generate(sys.argv[1] if len(sys.argv) > 1 else '/repo')
+    print(g[sys.argv[2] if len(sys.argv) > 2 else 'Gen_Kill.v'])
